@@ -18,15 +18,16 @@ def pools(tier):
     deep = NESTED1 + (NESTED2 if tier != "quick0" else [])
     num = ["1", "-2", "0", "2", "1.5", "'a'", "null", "true", "$.a", "$.zz", "States.MathAdd(1, 2)"]
     arr = ["$.arr", "$.nested", "$.o", "States.Array(1, 2)", "States.Array()", "'a'", "1", "null", "$.zz", "States.Array(States.Array(1), States.Array(1))"]
-    strs = ["'a'", "'a,b'", "'it\\'s'", "''", "$.s", "$.q", "$.b64", "$.js", "1", "null", "$.zz", "'a^]c'", "'a-c'", "'!!!'", "$.e"]
+    strs = ["'a'", "'a,b'", "'it\\'s'", "'dogs\\''", "'\\'q\\''", "''", "$.s", "$.q", "$.b64", "$.js", "1", "null", "$.zz", "'a^]c'", "'a-c'", "'!!!'", "$.e"]
     return {
         "States.Format": (range(0, 4), ["'x'", "'{}'", "'x{}y{}'", "'\\{\\}'", "'C:\\\\{}'", "'it\\'s {}'", "'{0}'", "'{0.__class__}'", "'{a}'", "'{'", "'}'", "'{}{}{}'", "$.s", "1"]
                           + ["'a'", "'a,b'", "'a)b'", "1", "$.a", "$.q", "$.zz", "States.MathAdd(1, 2)", "States.Format('<{}>', 'in')"]
                           # escaped backslashes next to every other escape and next to a placeholder (template and ordinary argument)
+                          + ["'end\\''", "'{}\\''"]
                           + ["'a\\\\\\\\b{}'", "'\\\\\\{{}\\\\\\}'", "'x\\\\\\'y'", "'p\\\\q'"]),
         "States.StringToJson": (range(0, 3), strs + ["'[1, 2]'", "'{'"]),
         "States.JsonToString": (range(0, 3), ["$.o", "$.arr", "1", "'a'", "null", "$.zz", "$.nested"]),
-        "States.Array": (range(0, 4), ["1", "'a,b'", "null", "true", "$.o", "$.zz", "States.Array(1)"]),
+        "States.Array": (range(0, 4), ["1", "'a,b'", "null", "true", "$.o", "$.zz", "States.Array(1)", "'dogs\\''", "'\\'q\\''"]),
         "States.ArrayPartition": (range(0, 4), arr + ["2", "0", "-1", "3"]),
         "States.ArrayContains": (range(0, 4), arr + ["2", "'b'", "true", "$.a"]),
         "States.ArrayRange": (range(0, 5), ["1", "9", "-2", "0", "2", "1.5", "'a'", "null", "1001", "$.a", "$.zz"]),
@@ -291,6 +292,26 @@ def run(tier, seed):
                 continue
             sig = "intrinsic|" + classify(e, got, want)
             cr.add(sig, "%s -> %r, definition gives %r" % (e, got, want), {"kind": "expr", "property": PROP, "signature": sig, "expr": e}, size=len(e))
+    # sequences: what one call does to shared state (the generator a seeded States.MathRandom seeds) must not make a later
+    # States.UUID() repeat - after every seeded draw, alone and inside one template, over several rounds
+    sp, ex = engine()
+    seen_ids = {}
+    for rnd in range(3):
+        for tmpl in ({"pick.$": "States.MathRandom(1, 1000, 7)", "id.$": "States.UUID()"}, {"id.$": "States.UUID()", "pick.$": "States.MathRandom(1, 1000, 7)"},
+                     {"a.$": "States.MathRandom(1, 5, 3)"}, {"id.$": "States.UUID()"}, {"arr": [{"id.$": "States.UUID()"}, {"id.$": "States.UUID()"}]}):
+            try:
+                r = sp.evaluate_payload_template(copy.deepcopy(INPUT), copy.deepcopy(CTX), copy.deepcopy(tmpl))
+            except Exception as e:
+                r = {"error": type(e).__name__}
+            ids = [x for x in re.findall(r"[0-9a-f]{8}-[0-9a-f]{4}-[0-9a-f]{4}-[0-9a-f]{4}-[0-9a-f]{12}", json.dumps(r))]
+            for u in ids:
+                seen_ids[u] = seen_ids.get(u, 0) + 1
+            judged += 1
+    rep = [u for u, n in seen_ids.items() if n > 1]
+    if rep:
+        sig = "intrinsic|States.UUID|repeats-after-seeded-random"
+        cr.add(sig, "States.UUID() returned %s %d times in a sequence of evaluations that also draw seeded States.MathRandom values" % (rep[0], seen_ids[rep[0]]),
+               {"kind": "sequence", "property": PROP, "signature": sig}, size=1)
     # templates
     sp, ex = engine()
     nt = 0
@@ -365,4 +386,8 @@ def replay(rp):
         bad = mut or got[0] in ("raise", "value-not-json") or (want is not None and not agree(got, want))
         print(("REPRODUCED property=C13" if bad else "not reproduced") + ": %s -> %r, definition gives %r" % (rp["expr"], got, want))
         return 1 if bad else 0
-    return 1
+    # sequence / template findings: re-run the check's own clauses and report whether the signature shows again
+    cr = run("quick", 0)
+    bad = rp.get("signature") in cr.findings
+    print("REPRODUCED property=C13 " + rp.get("signature", "") if bad else "not reproduced")
+    return 1 if bad else 0
